@@ -145,6 +145,22 @@ CHECKS.update({
         engine="paths"),
 })
 
+CHECKS.update({
+    "C18": dict(
+        category="model_checking",
+        text="RuleLoad.tla: every sequence of up to 2 (thorough: 3) rule files in {valid, unreadable, syntax error, DSL error, bad "
+             "import, empty} x failOn subsets x legacy flag x unknown token x pattern form is an initial state and the load loop runs "
+             "as actions; Conforms compares the outcome with the documented skip-or-fail policy (three-valued where the statement is "
+             "silent); counting failed loads (the pinned behaviour) is refuted. A second sweep covers group filtering by name, #tag, "
+             "<all> and the experimental rule. Every exported case is materialised on disk and the real ruleguard checker is "
+             "constructed through linter.NewChecker and run on a probe file; init error, firing groups and spurious diagnostics are "
+             "compared with the documented outcome.",
+        design_ref="DESIGN.md section 6 C18, Appendix A.5",
+        note="Quick tier: all single-file cases and a seeded sample of two-file sequences and group filters.",
+        technique="TLC fault-sequence enumeration + replay of every case on the real loader",
+        engine="ruleload"),
+})
+
 NOT_YET = "check not built yet (construction in progress; see DESIGN.md section 6)"
 NOT_APPLICABLE = {}
 
